@@ -21,6 +21,8 @@ EVIDENCE_DIR = os.path.join(VERIF, "evidence")
 REPLAY_DIR = os.path.join(VERIF, "replays")
 KNOWN_FILE = os.path.join(VERIF, "known_findings.json")
 NPROC = int(os.environ.get("PYVC_NPROC", "14"))
+BOUNDED_BUDGET_S = float(os.environ.get("PYVC_BOUNDED_S", "40"))
+THOROUGH_BUDGET_S = float(os.environ.get("PYVC_THOROUGH_S", "150"))
 
 ASSUMPTIONS = {
     "A1": "sequential execution; no threads, signals or finalisers",
@@ -44,10 +46,14 @@ ASSUMPTIONS = {
 
 
 def _task(t):
-    kind, name, repo_root = t
+    kind, name, repo_root = t[:3]
+    shard = t[3] if len(t) > 3 else None
     try:
         if kind == "func":
-            return driver.verify_function(name, repo_root)
+            r = driver.verify_function(name, repo_root, shard=shard)
+            if shard is not None:
+                r["shard"] = list(shard)
+            return r
         return driver.verify_lemma(name, repo_root)
     except Exception as exc:  # pragma: no cover
         import traceback
@@ -58,6 +64,39 @@ def tasks_for(pid, reg):
     funcs = [q for q, c in reg.contracts.items() if pid in c.props and not c.no_body]
     lemmas = [lid for (lid, props, _f) in reg.lemmas if pid in props]
     return funcs, lemmas
+
+
+def _explore_task(t):
+    pid, budget, seed, repo_root, focus = t
+    try:
+        from . import bounded
+        driver.load_contracts()
+        from .extract import REPO
+        return bounded.explore(pid, budget_s=budget, seed=seed, repo_root=repo_root or REPO, focus=focus)
+    except Exception as exc:  # pragma: no cover
+        import traceback
+        return {"error": str(exc), "traceback": traceback.format_exc(), "histories": 0, "calls_checked": 0, "failure": None}
+
+
+def bounded_search(pid, focus, budget_s, seed, repo_root, nproc=None):
+    """run the bounded explorer in parallel with different seeds; returns (aggregate dict, first failure or None)"""
+    nproc = nproc or NPROC
+    tasks = [(pid, budget_s, seed * 1000 + k, repo_root, focus) for k in range(nproc)]
+    ctx = mp.get_context("fork")
+    agg = {"histories": 0, "calls_checked": 0, "distinct": 0, "workers": nproc, "budget_s_each": budget_s, "errors": []}
+    failure = None
+    with cf.ProcessPoolExecutor(max_workers=nproc, mp_context=ctx) as ex:
+        for r in ex.map(_explore_task, tasks, chunksize=1):
+            agg["histories"] += r.get("histories", 0)
+            agg["distinct"] += r.get("distinct", 0)
+            agg["calls_checked"] += r.get("calls_checked", 0)
+            if r.get("error"):
+                agg["errors"].append(r["error"])
+            if r.get("failure") and failure is None:
+                failure = r["failure"]
+            if r.get("sample") and "sample" not in agg:
+                agg["sample"] = r["sample"]
+    return agg, failure
 
 
 def sanitize(s):
@@ -71,14 +110,15 @@ def load_known():
     return {"known": [], "fixed": []}
 
 
-def write_replay(pid, res, ob):
+def write_replay(pid, res, ob, others=(), search=None):
     d = os.path.join(REPLAY_DIR, pid)
     os.makedirs(d, exist_ok=True)
     path = os.path.join(d, sanitize(ob["id"]) + ".py")
     body = {
         "property": pid, "obligation": ob["id"], "function": res["function"], "source": res.get("file"),
         "source_sha256": res.get("sha256"), "clause": ob["meta"].get("clause"), "path": ob["meta"].get("trail"),
-        "backend": ob["backend"], "solver_model": ob.get("model"),
+        "backend": ob["backend"], "solver_model": ob.get("model"), "other_refuted_obligations_of_this_function": list(others),
+        "bounded_search_for_a_failing_input": search,
     }
     with open(path, "w") as fh:
         fh.write('"""Failed proof obligation (pyvc). No concrete failing input was constructed for this obligation:\n'
@@ -93,7 +133,15 @@ def run_check(pid: str, tier: str, repo_root=None, seed=0):
     t0 = time.time()
     reg = driver.load_contracts()
     funcs, lemmas = tasks_for(pid, reg)
-    tasks = [("func", f, repo_root) for f in funcs] + [("lemma", l, repo_root) for l in lemmas]
+    tasks = []
+    for f in funcs:
+        n = getattr(reg.contracts[f], "shards", 1) or 1
+        if n > 1:
+            tasks.extend(("func", f, repo_root, (k, n)) for k in range(n))
+        else:
+            tasks.append(("func", f, repo_root))
+    tasks.sort(key=lambda t: 0 if len(t) > 3 else 1)          # heavy functions first
+    tasks += [("lemma", l, repo_root) for l in lemmas]
     results = []
     if tasks:
         ctx = mp.get_context("fork")
@@ -103,6 +151,7 @@ def run_check(pid: str, tier: str, repo_root=None, seed=0):
     known = load_known()
     known_ids = {k["obligation"]: k for k in known.get("known", []) if k.get("property") == pid}
     viol, undecided, errors, known_seen = [], [], [], []
+    covers = {}
     n_obl = n_dis = 0
     backends = {}
     solver_s = 0.0
@@ -121,6 +170,12 @@ def run_check(pid: str, tier: str, repo_root=None, seed=0):
             n_obl += 1
             solver_s += ob.get("seconds", 0)
             backends[ob["backend"]] = backends.get(ob["backend"], 0) + 1
+            if ob["kind"] == "cover":
+                n_obl -= 1          # vacuity guards are reported separately, they are not proof obligations
+                covers[ob["status"]] = covers.get(ob["status"], 0) + 1
+                if ob["status"] == "vacuous":
+                    errors.append((ob["id"], "vacuous hypotheses: " + ob.get("reason", "")))
+                continue
             if ob["status"] in ("proved", "covered"):
                 n_dis += 1
                 if len(samples) < 6 and ob["kind"] not in ("cover",):
@@ -142,10 +197,65 @@ def run_check(pid: str, tier: str, repo_root=None, seed=0):
     for kid in known_seen:
         lines.append(f"KNOWN-FINDING: property={pid} {kid} {known_ids[kid].get('what', '')}")
     replay_paths = []
+    bounded_report = []
+    from . import bounded
+    # refuted obligations: look for a concrete failing history of the real code, focused on the function concerned
+    by_func = {}
     for (res, ob) in viol:
-        path = write_replay(pid, res, ob)
-        replay_paths.append(path)
-        lines.append(f"VIOLATION property={pid} replay={path} no-failing-input-found")
+        by_func.setdefault(res["function"], []).append((res, ob))
+    for fname, items in by_func.items():
+        focus = [fname.split("/")[-1]] if "/" in fname else [fname]
+        agg, failure = bounded_search(pid, focus, BOUNDED_BUDGET_S, seed, repo_root)
+        agg["focus"] = focus
+        agg["purpose"] = "search for a failing input for refuted obligations"
+        bounded_report.append(agg)
+        if failure is not None:
+            os.makedirs(os.path.join(REPLAY_DIR, pid), exist_ok=True)
+            path = os.path.join(REPLAY_DIR, pid, sanitize(fname) + ".history.py")
+            bounded.write_replay(path, pid, failure, note="refuted obligations: " + ", ".join(ob["id"] for (_r, ob) in items[:8]))
+            replay_paths.append(path)
+            lines.append(f"VIOLATION property={pid} replay={path}")
+            for (res, ob) in items:
+                write_replay(pid, res, ob)
+        else:
+            for (res, ob) in items[:1]:
+                path = write_replay(pid, res, ob, others=[o["id"] for (_r, o) in items[1:]], search=agg)
+                replay_paths.append(path)
+                lines.append(f"VIOLATION property={pid} replay={path} no-failing-input-found")
+    # functions outside the symbolic subset: bounded stand-in (labelled, never counted as proved)
+    still_undecided = []
+    und_funcs = [n for (n, why) in undecided if n in {r["function"] for r in results if r["status"] == "undecided"}]
+    if und_funcs:
+        agg, failure = bounded_search(pid, [f.split("/")[-1] for f in und_funcs], BOUNDED_BUDGET_S, seed, repo_root)
+        agg["focus"] = und_funcs
+        agg["purpose"] = "bounded stand-in for functions outside the symbolic subset"
+        bounded_report.append(agg)
+        if failure is not None:
+            os.makedirs(os.path.join(REPLAY_DIR, pid), exist_ok=True)
+            path = os.path.join(REPLAY_DIR, pid, "bounded_" + sanitize(failure.get("function") or und_funcs[0]) + ".history.py")
+            bounded.write_replay(path, pid, failure, note="bounded stand-in for undecided functions: " + ", ".join(und_funcs))
+            replay_paths.append(path)
+            lines.append(f"VIOLATION property={pid} replay={path}")
+            viol.append((None, None))
+        elif agg["calls_checked"] > 0 and not agg["errors"]:
+            for (n, why) in undecided:
+                if n in und_funcs:
+                    lines.append(f"BOUNDED property={pid} {n}: not decided symbolically ({why}); bounded stand-in found no "
+                                 f"violation in {agg['histories']} histories / {agg['calls_checked']} monitored calls")
+                else:
+                    still_undecided.append((n, why))
+            undecided = still_undecided
+    if tier == "thorough" and not viol:
+        agg, failure = bounded_search(pid, None, THOROUGH_BUDGET_S, seed + 17, repo_root)
+        agg["purpose"] = "thorough tier: contracts vs CPython cross-check on random histories (bounded)"
+        bounded_report.append(agg)
+        if failure is not None:
+            os.makedirs(os.path.join(REPLAY_DIR, pid), exist_ok=True)
+            path = os.path.join(REPLAY_DIR, pid, "thorough_" + sanitize(failure.get("function") or "history") + ".history.py")
+            bounded.write_replay(path, pid, failure, note="thorough-tier run-time contract check")
+            replay_paths.append(path)
+            lines.append(f"VIOLATION property={pid} replay={path}")
+            viol.append((None, None))
     for (n, why) in undecided:
         lines.append(f"UNDECIDED property={pid} {n}: {why}")
     for (n, why) in errors:
@@ -162,10 +272,11 @@ def run_check(pid: str, tier: str, repo_root=None, seed=0):
                              "Lean 4.33 + Mathlib lemma base /verif/lean/ListLemmas.lean for the list rewrite rules"]
                             + [f"TRUSTED contract (body not verified): {q}" for q in trusted],
             "functions_under_contract": funcs_report,
-            "backends": backends, "solver_seconds": round(solver_s, 2),
+            "backends": backends, "solver_seconds": round(solver_s, 2), "vacuity_guards": covers,
             "samples": samples,
             "undecided": [f"{n}: {w}" for n, w in undecided], "checker_errors": [f"{n}: {w}" for n, w in errors],
             "known_findings_seen": known_seen, "replays": replay_paths,
+            "bounded": bounded_report,
             "explanation": "every obligation is a verification condition generated from the AST of the current /repo sources "
                            "against the sidecar contracts in /verif/contracts; loops are cut by invariants, calls by contracts; no bound",
         },
